@@ -32,6 +32,9 @@ type c18Case struct {
 	// ViaLibrary: S is a time (RFC3339Nano); it is first written with the
 	// library's own time codec and the text it produced is what gets parsed.
 	ViaLibrary bool `json:"via_library,omitempty"`
+	// Prev, if set, is a text decoded just before S through the same ReadBuf, from the
+	// same memory: what the decoder learned from it must not colour the result for S.
+	Prev []byte `json:"prev,omitempty"`
 }
 
 func init() { registerReplay("c18", func(c c18Case) error { _, _, err := runC18(c); return err }) }
@@ -92,6 +95,41 @@ func decodeTime(s []byte) (t time.Time, err error, nt null.Time, nerr error, e e
 	return
 }
 
+// decodeTimeReused is decodeTime as an application does it: one ReadBuf, Reset over
+// a buffer that is overwritten with each new block, so the bytes of the previous
+// text are replaced by those of the next one at the same address.
+var c18Reuse struct {
+	sync.Mutex
+	mem  []byte
+	mem2 []byte
+	rb   *avro.ReadBuf
+}
+
+func decodeTimeReused(s []byte) (t time.Time, err error, nt null.Time, nerr error, e error) {
+	tc, ntc, e := c18Codecs()
+	if e != nil {
+		return t, nil, nt, nil, fmt.Errorf("VERIF-INCONCLUSIVE building codecs: %v", e)
+	}
+	c18Reuse.Lock()
+	defer c18Reuse.Unlock()
+	if c18Reuse.rb == nil {
+		c18Reuse.mem, c18Reuse.mem2 = make([]byte, 0, 256), make([]byte, 0, 256)
+		c18Reuse.rb = avro.NewReadBuf(nil)
+	}
+	body := append(ref.AppendLong(c18Reuse.mem[:0], int64(len(s))), s...)
+	var r1 timeRec
+	c18Reuse.rb.Reset(body)
+	err = tc.Read(c18Reuse.rb, reflect.ValueOf(&r1).UnsafePointer())
+	t = r1.T
+	body2 := append(ref.AppendLong(c18Reuse.mem2[:0], 1), body...)
+	var r2 nullTimeRec
+	c18Reuse.rb.Reset(body2)
+	nerr = ntc.Read(c18Reuse.rb, reflect.ValueOf(&r2).UnsafePointer())
+	nt = r2.T
+	c18Reuse.rb.ExtractResourceBank()
+	return
+}
+
 func sameTime(a, b time.Time) bool {
 	_, ao := a.Zone()
 	_, bo := b.Zone()
@@ -112,7 +150,7 @@ func runC18(c c18Case) (bool, []string, error) {
 		if err != nil || !sameTime(std, tm) {
 			return true, []string{"library_formatted"}, fmt.Errorf("time %s was written by the library as %q, which the standard library reads as %v (err %v)", c.S, text, std, err)
 		}
-		c = c18Case{S: text}
+		c = c18Case{S: text, Prev: c.Prev}
 	}
 	s := string(c.S)
 	var want time.Time
@@ -124,7 +162,15 @@ func runC18(c c18Case) (bool, []string, error) {
 	} else {
 		want, perr = time.Parse(time.RFC3339, s)
 	}
-	got, err, ngot, nerr, e := decodeTime(c.S)
+	// each case starts from the same memory contents: whatever an earlier case left there is gone
+	c18Reuse.Lock()
+	clear(c18Reuse.mem[:cap(c18Reuse.mem)])
+	clear(c18Reuse.mem2[:cap(c18Reuse.mem2)])
+	c18Reuse.Unlock()
+	if c.Prev != nil {
+		_, _, _, _, _ = decodeTimeReused(c.Prev)
+	}
+	got, err, ngot, nerr, e := decodeTimeReused(c.S)
 	if e != nil {
 		return false, nil, e
 	}
@@ -226,6 +272,23 @@ func libraryFormat(tm time.Time) ([]byte, error) {
 }
 
 func drawC18(t *rapid.T) c18Case {
+	c := drawC18One(t)
+	if gen.Uniform(t, "prev", 3) == 0 {
+		c.Prev = drawC18One(t).S
+		if gen.Uniform(t, "prevSameShape", 2) == 0 && len(c.S) >= 10 {
+			// same layout, different date (or the same date with another time)
+			c.Prev = append([]byte(nil), c.S...)
+			for _, i := range []int{3, 6, 9, 12, 18} {
+				if i < len(c.Prev) && c.Prev[i] >= '0' && c.Prev[i] <= '9' && gen.Uniform(t, "prevDigit", 2) == 0 {
+					c.Prev[i] = '0' + (c.Prev[i]-'0'+1)%2 // stays a valid digit for every position
+				}
+			}
+		}
+	}
+	return c
+}
+
+func drawC18One(t *rapid.T) c18Case {
 	switch gen.Uniform(t, "cls", 11) {
 	case 10: // formatted by the LIBRARY's writer: must be RFC 3339 for the same instant, and read back
 		var v specTime
